@@ -117,8 +117,34 @@ func genC16Case(t *rapid.T) *StructCase {
 		if g.tag != "valid" {
 			c.Tag = g.tag
 		}
+		// json tags: a json name may equal ANOTHER field's Go name, or no field name at all
+		jsonNames := []string{}
+		if rapid.IntRange(0, 2).Draw(t, "jsonTags") == 1 {
+			for i := range ty.Fields {
+				f := &ty.Fields[i]
+				if f.Tags == nil {
+					f.Tags = map[string]string{}
+				}
+				jn := strings.ToLower(f.Name)
+				if i+1 < len(ty.Fields) && rapid.IntRange(0, 3).Draw(t, "jsonNameOfNeighbour") == 2 {
+					jn = ty.Fields[i+1].Name // the json name of this field is the Go name of the next one
+				}
+				f.Tags["json"] = jn + rapid.SampledFrom([]string{"", ",omitempty"}).Draw(t, "jsonOpt")
+				jsonNames = append(jsonNames, jn)
+			}
+			c = &StructCase{Root: desc.Ptr(ty), Val: desc.V{E: []desc.V{g.genValueFor(ty, 0)}}}
+			if g.tag != "valid" {
+				c.Tag = g.tag
+			}
+		}
 		if rapid.Bool().Draw(t, "override") {
 			c.Unscoped = map[string]string{}
+			// keys that name no field (a json name, a lower-case spelling) select nothing
+			for _, jn := range jsonNames {
+				if rapid.IntRange(0, 2).Draw(t, "jsonKey") == 1 && !desc.Exported(jn) {
+					c.Unscoped[jn] = "required|by json name," + genSizeRule(t, 2, "jk") + "|json key"
+				}
+			}
 			for _, f := range ty.Fields {
 				if f.T.K == "string" || f.T.K == "int" {
 					switch rapid.IntRange(0, 3).Draw(t, "ov-"+f.Name) {
